@@ -4,6 +4,8 @@ package main
 
 import (
 	"bytes"
+	"context"
+	"encoding/hex"
 	"encoding/json"
 	"fmt"
 	"log/slog"
@@ -17,7 +19,12 @@ import (
 	yaml "sigs.k8s.io/yaml/goyaml.v3"
 
 	"go.opentelemetry.io/collector/component"
+	"go.opentelemetry.io/collector/component/componenttest"
+	"go.opentelemetry.io/collector/config/configauth"
+	"go.opentelemetry.io/collector/config/configgrpc"
+	"go.opentelemetry.io/collector/config/confighttp"
 	"go.opentelemetry.io/collector/config/configopaque"
+	"go.opentelemetry.io/collector/config/configtls"
 	"go.opentelemetry.io/collector/confmap"
 )
 
@@ -172,6 +179,266 @@ func TestVerifC14BuiltinAll(t *testing.T) {
 		}
 		out.Linef("end")
 		out.Flush()
+	}
+	// type-level probe and use-then-render monitor
+	out.Linef("case %d type-probe", len(all))
+	roots := []reflect.Type{}
+	for _, e := range all {
+		roots = append(roots, reflect.TypeOf(e.cfg))
+	}
+	roots = append(roots, reflect.TypeOf(configgrpc.ClientConfig{}), reflect.TypeOf(configgrpc.ServerConfig{}), reflect.TypeOf(configgrpc.KeepaliveClientConfig{}),
+		reflect.TypeOf(confighttp.ClientConfig{}), reflect.TypeOf(confighttp.ServerConfig{}), reflect.TypeOf(confighttp.CORSConfig{}),
+		reflect.TypeOf(configtls.Config{}), reflect.TypeOf(configtls.ClientConfig{}), reflect.TypeOf(configtls.ServerConfig{}), reflect.TypeOf(configauth.Authentication{}))
+	c14TypeProbe(out, roots)
+	out.Linef("nt")
+	out.Linef("end")
+	out.Linef("case %d use-then-render", len(all)+1)
+	c14UseThenRender(out, len(all)+1)
+	out.Linef("nt")
+	out.Linef("end")
+	out.Flush()
+}
+
+// ---- (1) TYPE level: an opaque type behind an unexported field ------------------------------------------------
+// fmt does not consult Format/String/GoString on values it reaches through an unexported struct field (they cannot be
+// interfaced): whatever such a field holds is printed from its kind. A configuration type that keeps an opaque string
+// (directly or inside a slice/map/struct/pointer) behind an unexported field therefore prints it raw under every verb.
+
+var c14OpaqueType = reflect.TypeOf(configopaque.String(""))
+
+func c14TypeProbe(out *vOut, roots []reflect.Type) {
+	type key struct {
+		t     reflect.Type
+		under bool
+	}
+	reported := map[string]bool{}
+	for _, root := range roots {
+		seen := map[key]bool{}
+		var walk func(t reflect.Type, path string, unexp string, depth int)
+		walk = func(t reflect.Type, path string, unexp string, depth int) {
+			if depth > 14 || seen[key{t, unexp != ""}] {
+				return
+			}
+			seen[key{t, unexp != ""}] = true
+			if t == c14OpaqueType {
+				if unexp != "" {
+					sig := fmt.Sprintf("%s.%s", root.String(), unexp)
+					if !reported[sig] {
+						reported[sig] = true
+						out.Linef("viol sig=C14/builtin/opaque-type-behind-unexported-field/%s reached=%s", sig, path)
+					}
+				}
+				return
+			}
+			switch t.Kind() {
+			case reflect.Pointer, reflect.Slice, reflect.Array:
+				walk(t.Elem(), path+"[]", unexp, depth+1)
+			case reflect.Map:
+				walk(t.Key(), path+"{key}", unexp, depth+1)
+				walk(t.Elem(), path+"{}", unexp, depth+1)
+			case reflect.Struct:
+				for i := 0; i < t.NumField(); i++ {
+					f := t.Field(i)
+					u := unexp
+					if u == "" && !f.IsExported() {
+						u = strings.TrimPrefix(path+"."+f.Name, ".")
+					}
+					walk(f.Type, path+"."+f.Name, u, depth+1)
+				}
+			}
+		}
+		rt := root
+		for rt.Kind() == reflect.Pointer {
+			rt = rt.Elem()
+		}
+		walk(rt, "", "", 0)
+	}
+	out.Linef("stat type_probe_roots %d", len(roots))
+}
+
+// ---- (2) USE then render -----------------------------------------------------------------------------------
+// the client / server configuration structs after their "use" methods have run (dial options, servers, TLS configs):
+// whatever those methods cached inside the struct must not show under fmt or the marshalling paths.
+
+func c14InjectMaps(v reflect.Value, secret string, depth int) int {
+	if depth > 8 || !v.IsValid() {
+		return 0
+	}
+	switch v.Kind() {
+	case reflect.Pointer:
+		if !v.IsNil() {
+			return c14InjectMaps(v.Elem(), secret, depth+1)
+		}
+	case reflect.Struct:
+		n := 0
+		for i := 0; i < v.NumField(); i++ {
+			if v.Type().Field(i).IsExported() {
+				n += c14InjectMaps(v.Field(i), secret, depth+1)
+			}
+		}
+		return n
+	case reflect.Map:
+		if v.Type().Elem() == c14OpaqueType && v.Type().Key().Kind() == reflect.String && v.CanSet() {
+			m := reflect.MakeMap(v.Type())
+			m.SetMapIndex(reflect.ValueOf("Authorization").Convert(v.Type().Key()), reflect.ValueOf("Bearer "+secret).Convert(c14OpaqueType))
+			v.Set(m)
+			return 1
+		}
+	}
+	return 0
+}
+
+// c14FindRaw: where (incl. unexported fields) a string containing the secret sits inside the value.
+func c14FindRaw(v reflect.Value, secret, path string, depth int, found *[]string) {
+	if depth > 10 || !v.IsValid() {
+		return
+	}
+	switch v.Kind() {
+	case reflect.String:
+		if strings.Contains(v.String(), secret) {
+			*found = append(*found, path)
+		}
+	case reflect.Pointer, reflect.Interface:
+		if !v.IsNil() {
+			c14FindRaw(v.Elem(), secret, path, depth+1, found)
+		}
+	case reflect.Struct:
+		for i := 0; i < v.NumField(); i++ {
+			c14FindRaw(v.Field(i), secret, path+"."+v.Type().Field(i).Name, depth+1, found)
+		}
+	case reflect.Slice, reflect.Array:
+		for i := 0; i < v.Len() && i < 8; i++ {
+			c14FindRaw(v.Index(i), secret, path+"[]", depth+1, found)
+		}
+	case reflect.Map:
+		for _, k := range v.MapKeys() {
+			c14FindRaw(v.MapIndex(k), secret, path+"{}", depth+1, found)
+		}
+	}
+}
+
+func c14UseThenRender(out *vOut, seedCase int) {
+	rnd := vRand(seedCase)
+	secret := fmt.Sprintf("Us3dS3cr3t%dZq", rnd.IntN(1000000))
+	host := componenttest.NewNopHost()
+	tel := componenttest.NewNopTelemetrySettings()
+	ctx := context.Background()
+	quiet := func(f func()) {
+		defer func() { _ = recover() }()
+		f()
+	}
+	type subject struct {
+		name string
+		cfg  any // pointer to the struct
+		use  func()
+	}
+	gc := configgrpc.NewDefaultClientConfig()
+	gc.Endpoint = "localhost:1"
+	gc.TLSSetting = configtls.ClientConfig{Insecure: true}
+	gs := configgrpc.NewDefaultServerConfig()
+	gs.NetAddr.Endpoint = "localhost:0"
+	hc := confighttp.NewDefaultClientConfig()
+	hc.Endpoint = "http://localhost:1"
+	hs := confighttp.NewDefaultServerConfig()
+	hs.Endpoint = "localhost:0"
+	tc := configtls.NewDefaultClientConfig()
+	ts := configtls.NewDefaultServerConfig()
+	au := &configauth.Authentication{}
+	subjects := []subject{
+		{"configgrpc.ClientConfig", gc, func() {
+			if conn, err := gc.ToClientConn(ctx, host, tel); err == nil {
+				_ = conn.Close()
+			}
+		}},
+		{"configgrpc.ServerConfig", gs, func() {
+			if srv, err := gs.ToServer(ctx, host, tel); err == nil {
+				srv.Stop()
+			}
+		}},
+		{"confighttp.ClientConfig", &hc, func() { _, _ = hc.ToClient(ctx, host, tel) }},
+		{"confighttp.ServerConfig", &hs, func() {
+			_, _ = hs.ToServer(ctx, host, tel, nil)
+			if l, err := hs.ToListener(ctx); err == nil {
+				_ = l.Close()
+			}
+		}},
+		{"configtls.ClientConfig", &tc, func() { _, _ = tc.LoadTLSConfig(ctx) }},
+		{"configtls.ServerConfig", &ts, func() { _, _ = ts.LoadTLSConfig(ctx) }},
+		{"configauth.Authentication", au, func() {}},
+	}
+	verbs := []string{"%v", "%+v", "%#v", "%s", "%q", "%x", "%X", "%d"}
+	for _, sj := range subjects {
+		n := c14InjectMaps(reflect.ValueOf(sj.cfg), secret, 0)
+		quiet(sj.use)
+		quiet(sj.use) // twice: caches are filled on first use and read on the next
+		leaks := map[string]bool{}
+		visible := func(r string) bool {
+			return strings.Contains(r, secret) || strings.Contains(r, hex.EncodeToString([]byte(secret))) || strings.Contains(r, strings.ToUpper(hex.EncodeToString([]byte(secret))))
+		}
+		deref := reflect.ValueOf(sj.cfg).Elem().Interface()
+		for _, operand := range []any{sj.cfg, deref} {
+			for _, verb := range verbs {
+				quiet(func() {
+					if visible(fmt.Sprintf(verb, operand)) {
+						leaks["fmt"+verb] = true
+					}
+				})
+			}
+			quiet(func() {
+				if visible(fmt.Sprint(operand)) || visible(fmt.Errorf("config: %v", operand).Error()) {
+					leaks["fmt.Sprint"] = true
+				}
+			})
+			quiet(func() {
+				if b, err := json.Marshal(operand); err == nil && visible(string(b)) {
+					leaks["json"] = true
+				}
+			})
+			quiet(func() {
+				if b, err := yaml.Marshal(operand); err == nil && visible(string(b)) {
+					leaks["yaml"] = true
+				}
+			})
+			quiet(func() {
+				conf := confmap.New()
+				if conf.Marshal(operand) == nil {
+					m := conf.ToStringMap()
+					y, _ := yaml.Marshal(m)
+					if visible(string(y)) || visible(fmt.Sprintf("%v", m)) {
+						leaks["confmap.Marshal"] = true
+					}
+				}
+			})
+		}
+		if len(leaks) > 0 {
+			var where []string
+			c14FindRaw(reflect.ValueOf(sj.cfg), secret, "", 0, &where)
+			// exported opaque positions hold the secret by design: keep the positions that are NOT of the opaque type's own field
+			var hidden []string
+			for _, w := range where {
+				segs := strings.Split(strings.TrimPrefix(w, "."), ".")
+				for _, sg := range segs {
+					name := strings.TrimRight(sg, "[]{}")
+					if name != "" && name[0] >= 'a' && name[0] <= 'z' {
+						hidden = append(hidden, strings.TrimPrefix(w, "."))
+						break
+					}
+				}
+			}
+			path := "unknown-position"
+			if len(hidden) > 0 {
+				sort.Strings(hidden)
+				path = hidden[0]
+			}
+			var via []string
+			for k := range leaks {
+				via = append(via, k)
+			}
+			sort.Strings(via)
+			out.Linef("viol sig=C14/builtin/secret-visible-after-use/%s/%s via=%s", sj.name, path, strings.Join(via, ","))
+		}
+		out.Linef("stat use_then_render_subjects 1")
+		out.Linef("stat use_then_render_opaque_maps_set %d", n)
 	}
 }
 
